@@ -601,6 +601,10 @@ def check_add(cx, inp):
     r = call(add_query_argument, url, name, value, quote=quote)
     if r[0] != "ok":
         cx.exc(FN_ADD, inp, r)
+        if quote or value is None or value is True or isinstance(value, str):
+            # "appends exactly one item" has no meaning for a call that raises: with quote=True every value is str()-ed, so nothing may raise
+            cx.n("add-appends-exactly-one-item")
+            cx.bad("add-appends-exactly-one-item", FN_ADD, inp, {"exception": list(r[1:])}, {"query_items": "<existing items> + <one new item>"}, "raises")
         return
     res = r[1]
     m0, q0, f0 = R.split3(url)
